@@ -103,6 +103,74 @@ def draw_ts(rnd):
     return MV.rand_ts(rnd)
 
 
+# A bound timestamp may carry any zone: the harness builds instants in UTC, so a deterministic share of them is re-dressed
+# in a fixed offset (same instant) before binding -- accessors without a zone argument must still answer in UTC.
+ZONE_DRESS = [0, 0, 330, -210, 840, -840, -570, 59, -1, 120, -300, 0]
+
+
+def dress(benv, env):
+    import datetime
+
+    ct = core.celpy().celtypes
+    for k, mvv in env.items():
+        if mvv[0] != "ts":
+            continue
+        us = mvv[1]
+        off = ZONE_DRESS[(us // 7919) % len(ZONE_DRESS)]
+        if off and MV.TS_MIN_US <= us + off * 60 * 10**6 <= MV.TS_MAX_US:
+            tz = datetime.timezone(datetime.timedelta(minutes=off))
+            benv[k] = ct.TimestampType(datetime.datetime.fromtimestamp(0, tz) + (benv[k] - datetime.datetime.fromtimestamp(0, datetime.timezone.utc)))
+    return benv
+
+
+def dressed_offsets(env):
+    out = []
+    for k, mvv in env.items():
+        if mvv[0] == "ts":
+            off = ZONE_DRESS[(mvv[1] // 7919) % len(ZONE_DRESS)]
+            if off and MV.TS_MIN_US <= mvv[1] + off * 60 * 10**6 <= MV.TS_MAX_US:
+                out.append(off)
+    return out
+
+
+def raw_instants(node, env):
+    """Unchecked integer microseconds of every timestamp-valued sub-expression (vars and +/- over them), for fault attribution only."""
+    found = []
+
+    def ev(n):
+        if n.k == "var":
+            v = env.get(n.a[0])
+            return v if v and v[0] in ("ts", "dur") else None
+        if n.k == "bin" and n.a[0] in ("+", "-"):
+            a, b = ev(n.a[1]), ev(n.a[2])
+            if a is None or b is None:
+                return None
+            if n.a[0] == "+":
+                r = ("ts" if "ts" in (a[0], b[0]) else "dur", a[1] + b[1])
+            else:
+                r = ("dur" if a[0] == b[0] else "ts", a[1] - b[1])
+            if r[0] == "ts":
+                found.append(r[1])
+            return r
+        for x in n.a:
+            if isinstance(x, Node):
+                ev(x)
+        return None
+
+    ev(node)
+    return found
+
+
+def carried_offset_at_range_edge(node, env):
+    """True when a bound timestamp carries a non-UTC offset and some timestamp-valued intermediate result lies within that
+    offset of either end of the representable range (where local wall-clock time and instant disagree about being in range)."""
+    offs = dressed_offsets(env)
+    if not offs:
+        return False
+    slack = max(abs(o) for o in offs) * 60 * 10**6
+    return any(abs(us - MV.TS_MIN_US) <= slack or abs(us - MV.TS_MAX_US) <= slack for us in raw_instants(node, env))
+
+
 class Checker:
     def __init__(self, acc):
         self.acc = acc
@@ -114,7 +182,7 @@ class Checker:
             acc.hook("unspecified-by-model")
             return
         src = lang.to_text(node)
-        benv = MV.cel_env(env)
+        benv = dress(MV.cel_env(env), env)
         for r in "IC":
             out = core.eval_cached(r, src, benv) if cached else core.api_eval(r, src, benv)
             acc.hook("evaluate:" + r)
@@ -125,7 +193,13 @@ class Checker:
             else:
                 kind_s = kind
             acc.cell(label, zone_kind, kind_s, exp[0], r, "ok" if ok else "differ")
-            if not ok:
+            if not ok and carried_offset_at_range_edge(node, env) and {out[0], exp[0]} == {"E", "V"}:
+                acc.violation(
+                    f"{r} arithmetic carried-offset-at-range-edge obs={out[0]} exp={exp[0]}",
+                    f"{'interpreted' if r == 'I' else 'compiled'}: {src} with {str(env)[:160]} (bound timestamps carry offsets {dressed_offsets(env)} min) gave {core.jkey(out)[:90]}, expected {str(exp)[:90]}",
+                    {"label": label, "src": src, "env": MV.enc_env(env), "runner": r, "tol": tol_us},
+                )
+            elif not ok:
                 acc.violation(
                     f"{r} {label} zone={zone_kind} at={kind_s} obs={diag.oclass(out).split('@')[0]} exp={'E' if exp[0] == 'E' else 'V:' + exp[1][0]}",
                     f"{'interpreted' if r == 'I' else 'compiled'}: {src} with {str(env)[:160]} gave {core.jkey(out)[:90]}, expected {str(exp)[:90]}",
